@@ -60,6 +60,7 @@ type Program struct {
 	// FnProblems: structural problems located in one function (scoped by the property drivers)
 	FnProblems []FnProblem
 	NInstr     int
+	Notes      []string
 }
 
 type FnProblem struct {
@@ -72,6 +73,9 @@ type FnProblem struct {
 func ShortName(f *ssa.Function) string {
 	if f == nil {
 		return "<nil>"
+	}
+	if a, ok := aliasOf[f]; ok {
+		return a
 	}
 	if f.Parent() != nil {
 		// anonymous function: name is parent$N
@@ -247,6 +251,7 @@ func Load(cfgName string) (*Program, error) {
 	for n := range asmByName {
 		p.Problems = append(p.Problems, "assembly TEXT "+n+" has no Go declaration")
 	}
+	p.resolveAliases()
 	p.assertStructure()
 	return p, nil
 }
